@@ -26,8 +26,20 @@ struct State {
     change_points: Vec<u64>,
     steps: u64,
     switches: u64,
+    /// how often a waiting thread took the baton because its holder made no progress (see `STALL`)
+    stalls: u64,
+    /// set by the first stall: no more serialisation in this scenario
+    free: bool,
     trace: Digest,
 }
+
+/// If the thread holding the baton reaches no scheduling point for this long, it is presumed blocked
+/// outside the simulator — typically on a lock inside the library that a *parked* thread holds (a
+/// library may legally hold a lock across sink calls or iterator steps). A waiting thread then takes
+/// the baton and the baton of this scenario becomes *free-running* for the rest of the scenario (every
+/// thread proceeds without waiting), so a scenario pays for at most one stall. This costs the exact
+/// serialisation of that scenario but can never turn a correct program into a failing one.
+const STALL: std::time::Duration = std::time::Duration::from_millis(500);
 
 pub struct Baton {
     st: Mutex<State>,
@@ -59,6 +71,8 @@ impl Baton {
                 change_points,
                 steps: 0,
                 switches: 0,
+                stalls: 0,
+                free: false,
                 trace: Digest::default(),
             }),
             cvs: (0..n).map(|_| Condvar::new()).collect(),
@@ -92,6 +106,22 @@ impl Baton {
         Some(next)
     }
 
+    fn wait_for_turn<'g>(&self, mut st: std::sync::MutexGuard<'g, State>, me: usize) -> std::sync::MutexGuard<'g, State> {
+        while st.current != Some(me) && !st.free {
+            let (seen_steps, seen_cur, all_started) = (st.steps, st.current, st.started == self.n);
+            let (g, to) = self.cvs[me].wait_timeout(st, STALL).unwrap();
+            st = g;
+            if to.timed_out() && all_started && !st.free && st.current != Some(me) && st.current == seen_cur && st.steps == seen_steps && st.alive[me] {
+                st.stalls += 1;
+                st.free = true;
+                for cv in &self.cvs {
+                    cv.notify_one();
+                }
+            }
+        }
+        st
+    }
+
     /// Called by thread `me` first thing: blocks until all threads are registered and it is chosen.
     pub fn start(&self, me: usize) {
         let mut st = self.st.lock().unwrap();
@@ -103,25 +133,23 @@ impl Baton {
                 self.cvs[nx].notify_one();
             }
         }
-        while st.current != Some(me) {
-            st = self.cvs[me].wait(st).unwrap();
-        }
+        let _st = self.wait_for_turn(st, me);
     }
 
     /// A scheduling point: the PRNG decides who continues.
     pub fn yield_point(&self, me: usize) {
         let mut st = self.st.lock().unwrap();
-        debug_assert_eq!(st.current, Some(me));
         st.steps += 1;
+        if st.free {
+            return;
+        }
         let next = Self::pick(&mut st, Some(me)).unwrap_or(me);
         st.trace.u64(next as u64);
         if next != me {
             st.switches += 1;
             st.current = Some(next);
             self.cvs[next].notify_one();
-            while st.current != Some(me) {
-                st = self.cvs[me].wait(st).unwrap();
-            }
+            let _st = self.wait_for_turn(st, me);
         }
     }
 
@@ -141,6 +169,11 @@ impl Baton {
     pub fn summary(&self) -> (u64, u64, u64) {
         let st = self.st.lock().unwrap();
         (st.steps, st.switches, st.trace.finish())
+    }
+
+    /// How often the liveness escape fired in this run.
+    pub fn stalls(&self) -> u64 {
+        self.st.lock().unwrap().stalls
     }
 }
 
